@@ -33,16 +33,112 @@ COMPONENTS = {
 }
 RULE = ("run = one stream of 1-5 pipelined requests (methods, targets, HTTP/1.0+1.1, Content-Length and chunked bodies with extensions/trailers, "
         "Expect: 100-continue, Connection: close, OWS/case oddities) with 0-3 byte mutations (replace/delete/insert/duplicate/truncate/CRLF->LF/inserted "
-        "continuation or framing line), channel limits drawn small or default; delivered whole and under one tape-chosen segmentation "
+        "continuation or framing line), channel limits drawn small or default; in OPENER_P of the runs the stream opens the way another protocol "
+        "or HTTP version would (HTTP/2 prior-knowledge preface with/without SETTINGS, PROXY v1/v2 header, TLS ClientHello, SSH banner, SOCKS greeting, "
+        "HTTP/0.9 simple request, extra empty lines; a first request line with method PRI/CONNECT/... and an unsupported or misspelt version; an "
+        "h2c Upgrade offer) - a server that recognises any of these must decide from the stream, not from the first delivery; the decoder's trailer "
+        "limit is the default (then, in BIG_TRAILER_P of the runs, chunked requests may carry a 64 KiB trailer section of limit-3..limit+2 bytes) or "
+        "24/64/300 bytes (set on every decoder the channel creates; trailer sections of limit-3..limit+2 bytes in 1-3 lines among the candidates); "
+        "delivered whole and under one tape-chosen segmentation "
         "(one/few/many/edges/bytes) with deferred responses finished at tape-chosen steps; non-trivial = the whole run handed at least one request to "
         "the application or answered 400, and the segmented run had at least one cut")
 ASSUMPTIONS = ["simulated time is held fixed (time-outs belong to C21)",
                "deliveries stop at the server's first close request (as a TCP transport stops reading); nothing after it is compared",
-               "if exactly one of the two runs asks to close, only the prefix relation is checked (counted as probe close_differs)"]
+               "if exactly one of the two runs asks to close, only the prefix relation is checked (counted as probe close_differs)",
+               "a small trailer limit is installed by rebinding http._ChunkedTransferDecoder, for the run, to a subclass that sets the documented "
+               "ivar _maxTrailerHeadersSize after the real __init__ (no other behaviour touched); streams above BIG_STREAM bytes get few cuts only",
+               "TRAILER_LIMIT_BLANK_LINE_CUT_P: see the constant (precondition of a genuine defect of the tree as first examined, REPAIRED in /repo 8dc962f; "
+               "let into 0.7 of the runs where the trailer limit is reachable; in the others no cut falls between CR and LF of an empty line - probe "
+               "blank_line_cut_merged)"]
 cleanup = H.cleanup
 
 CTYPES = [b"application/x-www-form-urlencoded", b"multipart/form-data; boundary=b", b"text/plain", b"garbage;;=", b"multipart/form-data"]
 MODES = ["sync", "chunked", "deferred", "deferred2"]
+
+# --- family "the connection does not open with an HTTP/1.x request" --------------------------------------------------------------
+# What other clients send first to a clear-text HTTP port.  For the HTTP/1.1 parser these are simply (mal)formed lines; a server that
+# recognises any of them must do so from the STREAM, not from whatever the first delivery happens to hold.
+H2_PREFACE = b"PRI * HTTP/2.0\r\n\r\nSM\r\n\r\n"
+H2_SETTINGS = b"\x00\x00\x0c\x04\x00\x00\x00\x00\x00\x00\x03\x00\x00\x00\x64\x00\x04\x00\x00\xff\xff"
+OPENERS = [
+    H2_PREFACE + H2_SETTINGS,                                              # HTTP/2 with prior knowledge (RFC 9113 s.3.3/3.4)
+    H2_PREFACE,
+    b"PROXY TCP4 192.0.2.1 192.0.2.2 40000 80\r\n",                        # PROXY protocol v1 line in front of the first request
+    b"\r\n\r\n\x00\r\nQUIT\n\x21\x11\x00\x0c\xc0\x00\x02\x01\xc0\x00\x02\x02\x9c\x40\x00\x50",   # PROXY protocol v2 signature + TCP4 block
+    b"\x16\x03\x01\x00\x2f\x01\x00\x00\x2b\x03\x03" + bytes(range(32)) + b"\x00\x00\x02\x13\x01\x01\x00",     # TLS ClientHello on the clear-text port
+    b"SSH-2.0-OpenSSH_9.6\r\n",
+    b"\x05\x01\x00",                                                       # SOCKS5 greeting
+    b"\r\n\r\n",                                                           # more than one empty line before the request-line
+    b"GET /simple\r\n",                                                    # HTTP/0.9 simple request
+]
+OPENER_METHODS = [b"PRI", b"GET", b"CONNECT", b"OPTIONS", b"POST"]
+OPENER_VERSIONS = [b"HTTP/2.0", b"HTTP/2", b"HTTP/3", b"HTTP/1.2", b"HTTP/0.9", b"HTTP/1.10", b"HTTP/01.1", b"http/1.1", b"RTSP/1.0", b"ICY", b"HTTP/1.1 ", b""]
+UPGRADE_LINES = b"Connection: Upgrade, HTTP2-Settings\r\nUpgrade: h2c\r\nHTTP2-Settings: AAMAAABkAAQAAP__\r\n"
+OPENER_P = 0.12
+
+# --- family "trailer section at the decoder's size limit" ------------------------------------------------------------------------
+# _ChunkedTransferDecoder limits the trailer section (ivar _maxTrailerHeadersSize, 64 KiB).  The limit is drawn per run: mostly the
+# default (then, rarely, one 64 KiB trailer section sits right at it), otherwise a small value set on every decoder the channel creates.
+TRAILER_LIMIT_DEFAULT = 2 ** 16
+TRAILER_LIMITS = [TRAILER_LIMIT_DEFAULT] * 9 + [24, 64, 300]
+BIG_TRAILER_P = 0.06
+BIG_STREAM = 16000       # streams longer than this are cut at a few points only (piecewise delivery of 64 KiB is quadratic in the decoder)
+# Share of the runs with a reachable trailer limit (one below 100 bytes, or a trailer section built to sit at the limit) in which a cut may fall between the CR and
+# the LF of an EMPTY line ("\n\r|\n").  On the tree as first examined such a cut in the blank line that ends a trailer section of limit-1
+# or limit bytes gave 400 + close where the whole stream gave 200 (genuine defect, REPAIRED in /repo 8dc962f, see MUTANTS): signature
+# C18:output-differs:before-close / C18:requests-differ:count.  The precondition is let into this share (0.7) of those runs; 0.0 keeps
+# every run away from it (such cuts are merged into the next delivery) and is only for dev-time comparison; everything else about the
+# limit - sizes on both sides of it, cuts inside trailer lines and between CR and LF of non-empty lines - is exercised in all runs.
+TRAILER_LIMIT_BLANK_LINE_CUT_P = 0.7
+
+
+def _limit_trailers(sim, limit):
+    """A trailer section of limit-3 .. limit+2 bytes (field lines with their CRLFs, the way the decoder counts) in 1-3 lines."""
+    total = limit + sim.draw_int(0, 5, "trailer-size") - 3
+    lines = []
+    for _ in range(sim.draw_int(0, 2, "trailer-small-lines")):
+        if total - 8 >= 8:
+            lines.append(b"X-T: 1")
+            total -= 8
+    lines.insert(sim.draw_int(0, len(lines), "trailer-fill-pos"), b"X-F: " + b"f" * (total - 7))
+    return tuple(lines)
+
+
+def _merge_blank_line_cuts(sim, data, pieces):
+    """Merge deliveries so that no cut falls between CR and LF of an empty line."""
+    out, pos, carry = [], 0, b""
+    for p in pieces:
+        pos += len(p)
+        carry += p
+        if pos < len(data) and pos >= 2 and data[pos - 2:pos + 1] == b"\n\r\n":
+            sim.probe("blank_line_cut_merged")
+            continue
+        out.append(carry)
+        carry = b""
+    if carry:
+        out.append(carry)
+    return out
+
+
+def _foreign_opener(sim, data, bounds):
+    """Make the stream open the way some other protocol (or HTTP version) would."""
+    kind = sim.draw_choice(["preface", "reqline", "upgrade"], "opener-kind")
+    eol = data.find(b"\r\n")
+    if kind == "preface" or eol < 0:
+        pre = sim.draw_choice(OPENERS, "opener")
+        if sim.draw_bool(0.25, "opener-alone"):
+            data, bounds = b"", []
+        cutat = [i + 2 for i in range(len(pre)) if pre[i:i + 2] == b"\r\n"][:3] + [len(pre)]
+        sim.probe("opener_preface")
+        return pre + data, sorted(set(cutat + [b + len(pre) for b in bounds]))
+    if kind == "reqline":
+        target = b"*" if sim.draw_bool(0.5, "opener-star") else data[:eol].split(b" ")[1] if data[:eol].count(b" ") >= 2 else b"/"
+        line = sim.draw_choice(OPENER_METHODS, "opener-method") + b" " + target + b" " + sim.draw_choice(OPENER_VERSIONS, "opener-version")
+        sim.probe("opener_reqline")
+        delta = len(line) - eol
+        return line + data[eol:], sorted(set([len(line) + 2] + [b + delta for b in bounds if b + delta > 0]))
+    sim.probe("opener_upgrade")
+    return data[:eol + 2] + UPGRADE_LINES + data[eol + 2:], sorted(set([eol + 2 + len(UPGRADE_LINES)] + [b + len(UPGRADE_LINES) if b > eol + 2 else b for b in bounds]))
 
 
 def _body_for(d):
@@ -168,20 +264,46 @@ def run(sim):
     }
     use_site = sim.draw_choice([False, False, False, True], "site")
     sim.clock.advance(sim.draw_int(0, 2000000, "t0"))
-    specs = H.gen_stream(sim, 5, content_types=CTYPES, long_ext="straddle")
+    tlimit = sim.draw_choice(TRAILER_LIMITS, "trailer-limit")
+    trailers = None
+    if tlimit != TRAILER_LIMIT_DEFAULT or sim.draw_bool(BIG_TRAILER_P, "big-trailer"):
+        trailers = list(H.TRAILERS) + [_limit_trailers(sim, tlimit)]
+        sim.probe("trailer_limit_small" if tlimit != TRAILER_LIMIT_DEFAULT else "trailer_limit_default_64k_section")
+    specs = H.gen_stream(sim, 5, content_types=CTYPES, long_ext="straddle", trailers=trailers)
     data, bounds = H.stream_bytes(specs)
+    at_limit = bool(trailers) and any(b"\r\n".join(trailers[-1]) + b"\r\n\r\n" in s.wire for s in specs)
+    if at_limit:
+        sim.probe("trailer_section_at_limit")
+    opener = sim.draw_bool(OPENER_P, "opener")
+    if opener:
+        data, bounds = _foreign_opener(sim, data, bounds)
     nmut = 0
     if sim.draw_bool(0.65, "mutate"):
         data, nmut = H.mutate(sim, data)
     plan = [sim.draw_choice(MODES, "mode") for _ in range(6)]
-    sim.config = {"knobs": knobs, "site": use_site, "nreq": len(specs), "nmut": nmut, "plan": plan, "len": len(data)}
+    sim.config = {"knobs": knobs, "site": use_site, "nreq": len(specs), "nmut": nmut, "plan": plan, "len": len(data), "trailer_limit": tlimit,
+                  "at_limit": at_limit, "opener": opener}
     sim.event("stream", len(data), hashlib.sha256(data).hexdigest()[:16], data)
 
-    whole = execute(sim, [data] if data else [], plan, knobs, False, use_site)
-    style = sim.draw_choice(["one", "few", "many", "edges", "bytes"], "cutstyle")
-    pieces = net.cut(sim, data, style=style, boundaries=bounds)
-    sim.event("pieces", style, len(pieces))
-    split = execute(sim, pieces, plan, knobs, True, use_site)
+    real_decoder = http._ChunkedTransferDecoder
+    if tlimit != TRAILER_LIMIT_DEFAULT:
+        class _LimitedDecoder(real_decoder):
+            def __init__(self, *a, **kw):
+                real_decoder.__init__(self, *a, **kw)
+                self._maxTrailerHeadersSize = tlimit
+        http._ChunkedTransferDecoder = _LimitedDecoder
+    try:
+        whole = execute(sim, [data] if data else [], plan, knobs, False, use_site)
+        style = sim.draw_choice(["one", "few", "many", "edges", "bytes"], "cutstyle")
+        if len(data) > BIG_STREAM and style in ("many", "bytes"):
+            style = "edges" if style == "many" else "few"
+        pieces = net.cut(sim, data, style=style, boundaries=bounds)
+        if (at_limit or tlimit < 100) and not sim.draw_bool(TRAILER_LIMIT_BLANK_LINE_CUT_P, "blank-line-cut-at-limit"):
+            pieces = _merge_blank_line_cuts(sim, data, pieces)
+        sim.event("pieces", style, len(pieces))
+        split = execute(sim, pieces, plan, knobs, True, use_site)
+    finally:
+        http._ChunkedTransferDecoder = real_decoder
 
     for tag, r in (("whole", whole), ("split", split)):
         sim.event(tag, len(r["reqs"]), len(r["out"]), hashlib.sha256(r["out"]).hexdigest()[:12], r["closed"], r["raised"] or "-")
@@ -230,4 +352,14 @@ MUTANTS = [
     'CAUGHT basic.py LineReceiver.dataReceived: `>= (self.MAX_LENGTH + len(self.delimiter))` -> `>= self.MAX_LENGTH` (premature line-length rejection only when split) -> output-differs:split-shorter',
     "CAUGHT http.py HTTPChannel.requestDone: `b''.join(self._dataBuffer)` -> `b''.join(self._dataBuffer[:1])` (replay of buffered pipelined data loses later deliveries) -> requests-differ:count",
     'CAUGHT http.py HTTPChannel.rawDataReceived: `self._dataBuffer.append(data)` -> `insert(0, data)` (buffered deliveries replayed out of order) -> requests-differ:count',
+    'CAUGHT http.py _GenericHTTPChannelProtocol.dataReceived: answer 505 + close when the first DELIVERY holds an " HTTP/2" request line or starts with a TLS record byte (protocol sniffed from the first delivery instead of the stream; family "foreign opener") -> output-differs:content',
+    'CAUGHT http.py _ChunkedTransferDecoder._dataReceived_TRAILER: unfinished-line estimate `minTrailerSize > limit` -> `>=` (family "trailer section at the limit") -> output-differs:before-close / requests-differ:count',
+    'CAUGHT http.py _ChunkedTransferDecoder._dataReceived_TRAILER: `+ (1 if self._buffer.endswith(b"\\r") else 2)` -> `+ 2` (a cut after the CR of a trailer line that ends exactly at the limit) -> output-differs:before-close / requests-differ:count',
+    'EQUIVALENT for C18: unfinished-line estimate dropped (`if False`) or complete-line check `>` -> `>=`: the verdict moves for whole and split alike',
+    'GENUINE DEFECT of the tree as first examined, REPAIRED in /repo 8dc962f (precondition let into TRAILER_LIMIT_BLANK_LINE_CUT_P = 0.7 of the runs with a reachable limit; 0 only for '
+    'dev-time comparison): _ChunkedTransferDecoder._dataReceived_TRAILER, a trailer section of limit-1 or limit bytes '
+    '(65535/65536 with the real limit) was accepted when the terminating blank line arrived with it, but a delivery that ended between the CR and the LF of that blank line raised '
+    '"Trailer headers data is too long." -> 400 + close: the unfinished-line estimate counted the blank line\'s CRLF, which the complete-line path never counts.  '
+    'Signatures output-differs:before-close / requests-differ:count (replays/C18_93830126_119.json, found with the knob at 1.0).  Repair: in the `eolIndex == -1` branch '
+    '`if self._buffer == b"\\r": return False` before the estimate: check passes with the knob at 1.0',
 ]
